@@ -25,7 +25,9 @@ TRUSTED = ['only stage calls inside the chain get_next_imf -> interp_envelope ->
            'signatures and defaults are constants of the model; they are compared with inspect.signature of the live functions '
            'on every run (stream signatures)',
            'the numerical effect of an option is not modelled: it is decided by the instance check (replay of every observed '
-           'stage call with the options computed from the user dictionaries, and output comparison across routes)']
+           'stage call with the options computed from the user dictionaries, and output comparison across routes); the padding '
+           'stage itself is compared with numpy.pad applied to the actual extrema (stream pad_oracle), which trusts numpy.pad and, '
+           'for the envelope, scipy.interpolate splrep/splev/pchip']
 ASSUMPTIONS = ['how often a stage is called depends on the data, which records occur does not: the set of distinct records per '
                'stage is compared (validated: equality of sets on every case)',
                'option dictionaries are dicts or None; the user does not alias one dict object under two options']
@@ -34,7 +36,13 @@ RULE = ('grid: variant {sift, ensemble_sift, complete_ensemble_sift, mask_sift (
         'rilling thresholds, fixed iterations, step size, energy threshold} x envelope options {splrep, pchip, mono_pchip} x '
         'extrema options {pad width, parabolic, custom np.pad dicts for locations and magnitudes, empty dict, None} x all '
         'three routes in every case x nprocesses {1, 2} x 3 signal families; plus malformed options (unknown names, duplicated '
-        'names, non-dict values, invalid method). Non-trivial: at least one stage receives a non-default option.')
+        'names, non-dict values, invalid method). Non-trivial: at least one stage receives a non-default option. '
+        'pad_oracle (instance-only, independent of the stage function): get_padded_extrema x {peaks, troughs, abs_peaks} and '
+        'interp_envelope x {upper, lower, combined} x {3 interpolation methods} with custom loc_pad_opts {default, reflect/odd, '
+        'linear_ramp} and mag_pad_opts {median, mean, edge, maximum, minimum, constant c / (c1,c2), linear_ramp, reflect, symmetric, '
+        'wrap} x pad width 0..7 x parabolic, on 4 signal families plus signals with fewer than two extrema; the result must equal '
+        'np.pad with the same dictionaries applied to the unpadded extrema (three-point rule on the samples), repeated while the '
+        'locations do not reach past both ends. Non-trivial there: a non-empty mag_pad_opts and at least one padding round.')
 
 LEGACY = 0      # 1 = model of the pinned (pre-D5-repair) code, used once to rediscover the defect
 
@@ -602,4 +610,267 @@ class StageSpecialCases(Stream):
         return ['family=' + case['signal']['family']]
 
 
-STREAMS = [Signatures(), Routing(), StageSpecialCases()]
+# ------------------------------------------------------------------------------------------------
+# Independent oracle for the padding stage.  The routing stream replays every observed stage call through the
+# stage function itself, so it cannot see a stage function that applies a supplied pad option wrongly.  Here the
+# padded extrema are rebuilt from the UNPADDED extrema (brute-force three-point rule on the samples; for parabolic
+# refinement the function's own pad_width=0 answer) and numpy's own np.pad with exactly the user's dictionaries,
+# repeated while `max(locs) < len(X) or min(locs) >= 0` (the documented rule of get_padded_extrema).
+
+GPE_MODES = ['peaks', 'troughs', 'abs_peaks']
+ENV_MODES = {'upper': 'peaks', 'lower': 'troughs', 'combined': 'abs_peaks'}
+DEFAULT_LOC = {'mode': 'reflect', 'reflect_type': 'odd'}
+DEFAULT_MAG = {'mode': 'median', 'stat_length': 1}
+MAX_ROUNDS = 64
+
+
+def pad_signal(spec):
+    n = spec['n']
+    t = np.linspace(0, 1, n)
+    fam = spec['family']
+    if fam == 'mono':
+        return t + 0.1 * t ** 2                                   # no extremum at all
+    if fam == 'hump':
+        return np.sin(np.pi * t) + 0.25 * t                       # one peak, no trough
+    if fam == 'offset':
+        rs = np.random.RandomState(spec['seed'])                  # strictly positive: troughs are positive values
+        return 3.0 + np.sin(2 * np.pi * 6 * t + rs.uniform(0, 6)) + 0.4 * np.sin(2 * np.pi * 19 * t) + 0.05 * rs.randn(n)
+    return make_signal(spec)
+
+
+def brute_extrema(x, mode):
+    """Unpadded extrema by the three-point rule on the samples (strict, interior samples only)."""
+    y = {'peaks': x, 'troughs': -x, 'abs_peaks': np.abs(x)}[mode]
+    locs = np.array([i for i in range(1, len(y) - 1) if y[i] > y[i - 1] and y[i] > y[i + 1]], dtype=int)
+    vals = np.abs(x)[locs] if mode == 'abs_peaks' else x[locs]
+    return locs, vals
+
+
+def oracle_padded(locs, mags, n, w, loc_opts, mag_opts):
+    """np.pad with the user's dictionaries on the actual locations / magnitudes -> (locs, mags, rounds) | None."""
+    if len(locs) < 2:
+        return None
+    lo = dict(loc_opts) if loc_opts else dict(DEFAULT_LOC)
+    mo = dict(mag_opts) if mag_opts else dict(DEFAULT_MAG)
+    w = min(w, len(locs))
+    if w == 0:
+        return np.asarray(locs), np.asarray(mags), 0
+    L, M, rounds = np.pad(locs, w, **lo), np.pad(mags, w, **mo), 1
+    while L.max() < n or L.min() >= 0:
+        if rounds >= MAX_ROUNDS:
+            raise RuntimeError('padding rule does not terminate with these location options')
+        L, M, rounds = np.pad(L, w, **lo), np.pad(M, w, **mo), rounds + 1
+    return L, M, rounds
+
+
+def oracle_envelope(L, M, n, method):
+    from scipy import interpolate as interp
+    t = np.arange(n)
+    if method == 'splrep':
+        return interp.splev(t, interp.splrep(L, M))
+    if method == 'mono_pchip':
+        return interp.PchipInterpolator(L, M)(t)
+    return interp.pchip(L, M)(t)
+
+
+def _dev(a, b):
+    """Largest absolute deviation of two arrays, or a word when they cannot be compared."""
+    if a is None or b is None:
+        return None if (a is None and b is None) else 'one-is-None'
+    a, b = np.asarray(a, dtype=float), np.asarray(b, dtype=float)
+    if a.shape != b.shape:
+        return 'shape %s vs %s' % (a.shape, b.shape)
+    if a.size == 0:
+        return 0.0
+    if not np.all(np.isfinite(a) == np.isfinite(b)):
+        return 'non-finite'
+    m = np.isfinite(a)
+    return float(np.max(np.abs(a[m] - b[m]))) if m.any() else 0.0
+
+
+def _head(a, k=6):
+    return None if a is None else [float(v) for v in np.asarray(a, dtype=float)[:k]]
+
+
+class PadOracle(Stream):
+    """C06 'an extrema/padding option governs that stage': instance-only, independent of the stage function's own padding."""
+    name = 'pad_oracle'
+
+    MAG = [None, {}, {'mode': 'median', 'stat_length': 1}, {'mode': 'median', 'stat_length': 3},
+           {'mode': 'mean', 'stat_length': 2}, {'mode': 'mean', 'stat_length': 3}, {'mode': 'edge'},
+           # sign-asymmetric rules: a stage that pads a sign-flipped copy applies the opposite rule
+           {'mode': 'maximum', 'stat_length': 3}, {'mode': 'minimum', 'stat_length': 3}, {'mode': 'maximum'},
+           {'mode': 'minimum', 'stat_length': 2},
+           {'mode': 'constant', 'constant_values': 0.75}, {'mode': 'constant', 'constant_values': [-0.5, 1.25]},
+           {'mode': 'linear_ramp', 'end_values': 0.5}, {'mode': 'linear_ramp', 'end_values': [1.0, -1.0]},
+           {'mode': 'reflect'}, {'mode': 'symmetric', 'reflect_type': 'odd'}, {'mode': 'wrap'}]
+    LOC = [None, {}, {'mode': 'reflect', 'reflect_type': 'odd'}, 'ramp']    # 'ramp': linear_ramp to end values outside the signal
+    INTERP = ['splrep', 'pchip', 'mono_pchip']
+
+    def _case(self, fam, n, seed, w, par, li, mi, interp='splrep'):
+        loc = self.LOC[li]
+        if loc == 'ramp':
+            loc = {'mode': 'linear_ramp', 'end_values': [-(n // 2) - 1, n + n // 2]}
+        return {'signal': {'family': fam, 'n': n, 'seed': seed}, 'pad_width': w, 'parabolic': bool(par),
+                'loc': copy.deepcopy(loc), 'mag': copy.deepcopy(self.MAG[mi]), 'interp': interp}
+
+    def corpus(self):
+        out = []
+        # every magnitude rule once on a two-tone signal and once on a strictly positive one (round-2 change C06/2:
+        # troughs padded as peaks of the flipped signal -> maximum<->minimum, c<->-c on the lower envelope)
+        for mi in range(len(self.MAG)):
+            out.append(self._case('tones', 96, 1, 2 + mi % 3, False, mi % 3, mi, self.INTERP[mi % 3]))
+            out.append(self._case('offset', 128, 5, 3, mi % 2 == 1, 0, mi))
+        out += [self._case('tones', 12, 1, 5, False, 0, 7),          # pad_width clipped to the number of extrema
+                self._case('chirp', 24, 2, 6, False, 2, 11),
+                self._case('mono', 40, 0, 2, False, 0, 7),           # fewer than two extrema: None
+                self._case('hump', 40, 0, 2, False, 0, 8),
+                self._case('tones', 96, 1, 0, False, 0, 7),          # pad_width 0: the unpadded extrema
+                self._case('walk', 200, 3, 1, True, 0, 12),          # pad_width 1 usually needs several rounds
+                self._case('walk', 160, 9, 4, False, 3, 13, 'pchip')]
+        return out
+
+    def generate(self, rng, tier):
+        for _ in range(900 if tier == 'thorough' else 60):
+            fam = rng.choice(['tones', 'chirp', 'walk', 'offset', 'offset', 'hump', 'mono'] if rng.random() < 0.15
+                             else ['tones', 'chirp', 'walk', 'offset'])
+            yield self._case(fam, rng.choice([12, 24, 48, 64, 128, 200, 320]), rng.randint(0, 10 ** 6), rng.choice([0, 1, 2, 2, 3, 4, 5, 7]),
+                             rng.random() < 0.3, rng.randrange(len(self.LOC)), rng.randrange(len(self.MAG)), rng.choice(self.INTERP))
+
+    def impl(self, case):
+        S = sift_mod()
+        x = pad_signal(case['signal'])
+        n, w, par = len(x), case['pad_width'], case['parabolic']
+        tol = 1e-9 * max(1.0, float(np.max(np.abs(x))), float(n))
+        res = {'tol': tol, 'gpe': {}, 'env': {}}
+        oracles = {}
+        for m in GPE_MODES:
+            r = {}
+            raw = S.get_padded_extrema(x.copy(), pad_width=0, mode=m, parabolic_extrema=par)
+            raw = (None, None) if raw[0] is None else (np.asarray(raw[0]), np.asarray(raw[1]))
+            bl, bm = brute_extrema(x, m)
+            if not par:
+                r['unpadded'] = [_dev(raw[0], bl if len(bl) >= 2 else None), _dev(raw[1], bm if len(bm) >= 2 else None)]
+                ul, um = bl, bm
+            else:
+                ul, um = (np.array([]), np.array([])) if raw[0] is None else raw
+            r['n_ext'] = int(len(ul))
+            want = oracle_padded(ul, um, n, w, case['loc'], case['mag'])
+            oracles[m] = want
+            r['rounds'] = None if want is None else want[2]
+            try:
+                got = S.get_padded_extrema(x.copy(), pad_width=w, mode=m, parabolic_extrema=par,
+                                           loc_pad_opts=copy.deepcopy(case['loc']), mag_pad_opts=copy.deepcopy(case['mag']))
+            except Exception as e:  # noqa
+                r['error'] = err_kind(e)
+                res['gpe'][m] = r
+                continue
+            r['loc'] = _dev(got[0], None if want is None else want[0])
+            r['mag'] = _dev(got[1], None if want is None else want[1])
+            r['got'] = [_head(got[0]), _head(got[1])]
+            r['want'] = [None, None] if want is None else [_head(want[0]), _head(want[1])]
+            res['gpe'][m] = r
+        for em, m in ENV_MODES.items():
+            r = {}
+            want = oracles[m]
+            ext = {'pad_width': w, 'parabolic_extrema': par, 'loc_pad_opts': copy.deepcopy(case['loc']),
+                   'mag_pad_opts': copy.deepcopy(case['mag'])}
+            want_env = None
+            if want is not None and want[2] >= 1:
+                try:
+                    want_env = oracle_envelope(want[0], want[1], n, case['interp'])
+                except Exception as e:  # noqa   (e.g. too few / repeated knots: the interpolator itself refuses)
+                    r['oracle_error'] = err_kind(e)
+            try:
+                got = S.interp_envelope(x.copy(), mode=em, interp_method=case['interp'], extrema_opts=ext, ret_extrema=True)
+            except Exception as e:  # noqa
+                r['error'] = err_kind(e)
+                r['msg'] = str(e)[:120]
+                res['env'][em] = r
+                continue
+            if got is None:
+                r['loc'] = r['mag'] = r['env'] = _dev(None, None if want is None else want[0])
+            elif want is None:
+                r['loc'] = r['mag'] = r['env'] = 'one-is-None'
+            else:
+                env, (gl, gm) = got
+                r['loc'], r['mag'] = _dev(gl, want[0]), _dev(gm, want[1])
+                r['env'] = None if want_env is None else _dev(env, want_env)
+                r['scale'] = float(max(1.0, np.max(np.abs(want[1]))))
+            res['env'][em] = r
+        return res
+
+    @staticmethod
+    def _bad(d, tol):
+        return d is not None and (isinstance(d, str) or d > tol)
+
+    def holds(self, case, out):
+        if isinstance(out, ImplError):
+            return [Failure('pad-oracle-not-runnable:' + out['error'], out['msg'])]
+        fs = []
+        tol = out['tol']
+        opts = 'pad_width=%s parabolic=%s loc_pad_opts=%s mag_pad_opts=%s' % (case['pad_width'], case['parabolic'], case['loc'], case['mag'])
+        for m, r in out['gpe'].items():
+            # np.pad(values, w, **opts) applied once is the documented meaning of the option; the repetition of the padding
+            # while the locations do not reach past both ends is the anchored mechanism (non-literal when it was needed)
+            lit = r.get('rounds') in (None, 0, 1)
+            if 'unpadded' in r and any(self._bad(d, tol) for d in r['unpadded']):
+                fs.append(Failure('unpadded-extrema-differ-from-three-point-rule:%s' % m,
+                                  'get_padded_extrema(pad_width=0, mode=%s): deviation (locations, magnitudes) %s' % (m, r['unpadded']), literal=False))
+            if 'error' in r:
+                fs.append(Failure('pad-options-raise:get_padded_extrema:%s:%s' % (m, r['error']), opts))
+                continue
+            for what in ('loc', 'mag'):
+                if self._bad(r[what], tol):
+                    fs.append(Failure('pad-option-not-applied:get_padded_extrema:%s:%s_pad_opts' % (m, what),
+                                      '%s: mode=%s returned (locs, mags) %s..., np.pad of the %d actual extrema with these options gives %s... '
+                                      '(%s rounds; deviation %s)' % (opts, m, r['got'], r['n_ext'], r['want'], r['rounds'], r[what]), literal=lit))
+        for em, r in out['env'].items():
+            lit = out['gpe'][ENV_MODES[em]].get('rounds') in (None, 0, 1)
+            if 'error' in r:
+                # without padding (pad_width 0) or when scipy itself refuses the knots there is no envelope to speak of
+                if 'error' not in out['gpe'][ENV_MODES[em]] and 'oracle_error' not in r and (out['gpe'][ENV_MODES[em]].get('rounds') or 0) >= 1:
+                    fs.append(Failure('pad-options-raise:interp_envelope:%s:%s' % (em, r['error']), '%s interp_method=%s: %s' % (opts, case['interp'], r.get('msg'))))
+                continue
+            for what in ('loc', 'mag'):
+                if self._bad(r[what], tol):
+                    fs.append(Failure('pad-option-not-applied:interp_envelope:%s:%s_pad_opts' % (em, what),
+                                      '%s: extrema returned by interp_envelope(mode=%s, extrema_opts=..., ret_extrema=True) deviate by %s from np.pad '
+                                      'of the actual extrema with these options' % (opts, em, r[what]), literal=lit))
+            if self._bad(r.get('env'), tol * 1e3 * r.get('scale', 1.0)):
+                fs.append(Failure('envelope-not-through-padded-extrema:interp_envelope:%s' % em,
+                                  '%s interp_method=%s: envelope deviates by %s from the interpolant of the extrema padded with these options'
+                                  % (opts, case['interp'], r['env']), literal=lit))
+        return fs
+
+    def tags(self, case, out):
+        t = ['mag=' + ('None' if case['mag'] is None else ('{}' if not case['mag'] else case['mag']['mode'])),
+             'loc=' + ('None' if case['loc'] is None else ('{}' if not case['loc'] else case['loc']['mode'])),
+             'pad_width=%d' % case['pad_width'], 'parabolic=%s' % case['parabolic'], 'interp=' + case['interp']]
+        if not isinstance(out, ImplError):
+            for m, r in out['gpe'].items():
+                k = r.get('rounds')
+                t.append('%s:%s' % (m, 'fewer-than-two-extrema' if k is None else ('no-padding' if k == 0 else ('one-round' if k == 1 else 'several-rounds'))))
+                if r.get('n_ext', 0) >= 2 and r['n_ext'] < case['pad_width']:
+                    t.append('pad_width-clipped-to-number-of-extrema')
+        return sorted(set(t))
+
+    def nontrivial(self, case, out):
+        return (not isinstance(out, ImplError)) and bool(case['mag']) and any((r.get('rounds') or 0) >= 1 for r in out['gpe'].values())
+
+    def shrink(self, case):
+        n = case['signal']['n']
+        for m in (24, 48, 96):
+            if m < n:
+                yield dict(case, signal=dict(case['signal'], n=m))
+        if case['parabolic']:
+            yield dict(case, parabolic=False)
+        if case['loc']:
+            yield dict(case, loc=None)
+        if case['interp'] != 'splrep':
+            yield dict(case, interp='splrep')
+        if case['pad_width'] > 2:
+            yield dict(case, pad_width=2)
+
+
+STREAMS = [Signatures(), Routing(), StageSpecialCases(), PadOracle()]
